@@ -118,16 +118,8 @@ Proof.
   { destruct body as [|z [|x r]]; try reflexivity.
     cbn [forallb] in Hb. apply andb_true_iff in Hb. destruct Hb as [_ Hb].
     apply andb_true_iff in Hb. destruct Hb as [Hx _]. unfold num_char, is_digit in Hx. lia. }
-  assert (Hnohex : match body with
-             | z :: x :: r => if (z =? 48)%N && ((x =? 120)%N || (x =? 88)%N) then
-                                match parse_xmantissa r with
-                                | Some (q, r') => let '(e, r'') := parse_exp 112 80 r' in Some (Qmult q (pow2 e), r'')
-                                | None => None
-                                end
-                              else None
-             | _ => None
-             end = None).
-  { destruct body as [|z [|x r]]; try reflexivity. rewrite Hhex. reflexivity. }
+  assert (Hnohex : parse_hex body = None).
+  { unfold parse_hex. destruct body as [|z [|x r]]; try reflexivity. rewrite Hhex. reflexivity. }
   rewrite Hnohex.
   destruct (parse_mantissa body) as [[q r]|] eqn:Hm; [|reflexivity].
   pose proof (parse_mantissa_rest _ _ _ Hb Hm) as Hr.
